@@ -402,12 +402,13 @@ fn entries_of(fam: Family, reach: bool, ts: &[Term], stale: &mut bool) -> Option
                 let pid = u(&a[2], u32::MAX as u64)? as u32;
                 let pr = if a.len() == 4 || IS_DEBUG { &a[3] } else { &a[4] };
                 let pr = pr.as_list()?;
-                if pr.len() != 2 {
+                if pr.len() != 2 && pr.len() != 3 {
                     return None;
                 }
                 let nlri = fam::mk_nlri(fam, kind, seed)?;
                 let (e, d) = probe(fam, reach, &nlri);
-                if e != pr[0] || d != pr[1] {
+                let st = struct_term(&nlri);
+                if e != pr[0] || d != pr[1] || st.as_ref() != pr.get(2) {
                     *stale = true;
                 }
                 out.push(InEntry { e: PathNlri { path_id: pid, nlri }, probe: Some((pr[0].clone(), pr[1].clone())) });
@@ -459,6 +460,25 @@ fn probe_nh(fam: Family) -> Option<Nexthop> {
 /// (ENC, DEC) of a single NLRI in this build profile: ENC = the bytes the entry adds to a one-entry MP_REACH / MP_UNREACH
 /// frame (so a withdrawn labeled prefix is measured in its withdrawn form), `err` when `encode_to` refuses it, `panic`;
 /// DEC = what the real decoder returns for that frame.
+/// STRUCT of a label-carrying NLRI (VPN, labeled unicast), read off the value through public fields - never through
+/// the encoder: `(vpn (LABEL*) (rd TYPE ADMIN ASSIGNED) xADDR MASK)` / `(lab (LABEL*) xADDR MASK)`.
+fn struct_term(nlri: &Nlri) -> Option<Term> {
+    use packet::rd::RouteDistinguisher as Rd;
+    let labels = |l: &packet::mpls::MplsLabelStack| Term::list(l.labels().iter().map(|x| Term::nat(x.value())).collect());
+    let rd = |r: &Rd| match *r {
+        Rd::TwoOctetAs { admin, assigned } => Term::tag("rd", vec![Term::nat(0u32), Term::nat(admin), Term::nat(assigned)]),
+        Rd::Ipv4 { admin, assigned } => Term::tag("rd", vec![Term::nat(1u32), Term::nat(u32::from(admin)), Term::nat(assigned)]),
+        Rd::FourOctetAs { admin, assigned } => Term::tag("rd", vec![Term::nat(2u32), Term::nat(admin), Term::nat(assigned)]),
+    };
+    match nlri {
+        Nlri::VpnV4(n) => Some(Term::tag("vpn", vec![labels(&n.labels), rd(&n.rd), Term::bytes(&n.prefix.addr.octets()), Term::nat(n.prefix.mask)])),
+        Nlri::VpnV6(n) => Some(Term::tag("vpn", vec![labels(&n.labels), rd(&n.rd), Term::bytes(&n.prefix.addr.octets()), Term::nat(n.prefix.mask)])),
+        Nlri::LabeledV4(n) => Some(Term::tag("lab", vec![labels(&n.labels), Term::bytes(&n.prefix.addr.octets()), Term::nat(n.prefix.mask)])),
+        Nlri::LabeledV6(n) => Some(Term::tag("lab", vec![labels(&n.labels), Term::bytes(&n.prefix.addr.octets()), Term::nat(n.prefix.mask)])),
+        _ => None,
+    }
+}
+
 fn probe(fam: Family, reach: bool, nlri: &Nlri) -> (Term, Term) {
     let caps = probe_caps(fam);
     let entries = vec![PathNlri { path_id: 0, nlri: nlri.clone() }];
@@ -787,7 +807,11 @@ fn run_probe(line: &str) -> String {
     match catch_unwind(AssertUnwindSafe(|| fam::mk_nlri(fam, kind, seed))) {
         Ok(Some(n)) => {
             let (e, d) = probe(fam, reach, &n);
-            Term::list(vec![e, d]).to_string()
+            let mut v = vec![e, d];
+            if let Some(st) = struct_term(&n) {
+                v.push(st);
+            }
+            Term::list(v).to_string()
         }
         _ => "(bad-case)".into(),
     }
